@@ -4,6 +4,7 @@ go 1.23
 
 require (
 	github.com/bytom/bytom v0.0.0
+	github.com/pborman/uuid v1.2.1
 	github.com/sirupsen/logrus v1.8.1
 	github.com/tendermint/go-wire v0.16.0
 	golang.org/x/crypto v0.0.0-20210322153248-0c34fe9e7dc2
@@ -23,7 +24,6 @@ require (
 	github.com/holiman/uint256 v1.2.0 // indirect
 	github.com/johngb/langreg v0.0.0-20150123211413-5c6abc6d19d2 // indirect
 	github.com/miekg/dns v1.1.41 // indirect
-	github.com/pborman/uuid v1.2.1 // indirect
 	github.com/pkg/errors v0.9.1 // indirect
 	github.com/syndtr/goleveldb v1.0.1-0.20200815110645-5c35d600f0ca // indirect
 	github.com/tendermint/tmlibs v0.9.0 // indirect
